@@ -152,9 +152,7 @@ def run(O, P):
             O.evaluations += 1
             def bad(what, **extra):
                 O.violation(what, dict({"case": {k: v for k, v in C.one_call_case(case).items() if k not in ("omap",)}}, **extra))
-            if cout.get("outcome") == "panic":
-                bad("panic: " + cout.get("panic", "")); continue
-            if cout.get("outcome") != "ok" or cout["result"]["metrics"]["status"] != "modified":
+            if not C.is_modified(cout):
                 continue
             case.setdefault("kind", "finding")
             kinds[case["kind"]] += 1
